@@ -1,15 +1,20 @@
 PROPERTY = "C03"
-ENCODED = ["linux::ptrace_dumper::PtraceDumper::{suspend_thread,suspend_threads,resume_thread,resume_threads,continue_process}", "ptrace_dumper::ptrace_detach", "<PtraceDumper as Drop>::drop"]
+ENCODED = ["linux::ptrace_dumper::PtraceDumper::{suspend_thread,suspend_threads,resume_thread,resume_threads,continue_process}", "ptrace_dumper::ptrace_detach", "<PtraceDumper as Drop>::drop", "PtraceDumper::{init,stop_process} (SIGSTOP/SIGCONT pairing)"]
 BOUNDS = {"threads": "1 (14 scripts), 2 (2 scripts), 3 (1 script); thread ids concrete and distinct",
           "per-thread script": "attach ok/ESRCH; up to 4 waitpid outcomes from {stopped by SIGSTOP, stopped by another signal (symbolic choice of signal), EINTR, exited, ECHILD}; getregs ok / null stack pointer / error",
-          "exit paths": "drop only; resume_threads then drop"}
+          "exit paths": "drop only; resume_threads then drop",
+          "stop_process": "8 poll scripts of up to 4 readings of /proc/<pid>/stat: stopped at once / later / never (running, zombie leader, tracing stop) / unreadable at once / later / SIGSTOP refused; timeouts 1-3 s against a clock that advances 1 s per reading"}
 OUTSIDE = ["real interleavings of signal arrival with attach, group-stop vs tracing-stop, the kernel's signal queues (the stubs encode the ptrace(2)/wait(2) man-page contract)",
-           "the 100 ms stop_process poll and /proc/<pid>/stat", "errors raised later in dump(): there the guarantee is Rust dropping the local dumper (checked by the dump() skeleton harnesses of C19 on the Ok path only)",
+           "the real clock and the text of /proc/<pid>/stat (scripted: Stat::from_file, Instant::now, thread::sleep)", "errors raised later in dump(): there the guarantee is Rust dropping the local dumper (checked by the dump() skeleton harnesses of C19 on the Ok path only)",
            "more than 2 intercepted signals per thread"]
 ASSUMPTIONS = ["stubs: ptrace::attach/detach/cont, wait::waitpid, signal::kill, ThreadInfoX86::getregs over ghost state (attached set, alive flag, signals handed out / re-injected)",
-               "waitpid with __WALL returns only Stopped, Exited or an error (no WNOHANG/WCONTINUED)", "std::fmt::format stubbed"]
+               "waitpid with __WALL returns only Stopped, Exited or an error (no WNOHANG/WCONTINUED)", "std::fmt::format stubbed", "c03_stop_*: nix kill, <Stat as FromRead>::from_file, Instant::now (1 s per reading), thread::sleep and the three later init steps are scripted"]
 def S(n, d, tier="quick"): return H("c03_suspend::" + n, desc=d, tier=tier, timeout=1800, est_gb=11, mem_gb=24)
+def P(n, d, tier="quick"): return H("c03_stop::" + n, desc=d, tier=tier, timeout=900, est_gb=4)
 HARNESSES = [
+    P("c03_stop_seen_at_once", "init+drop: stop observed at the first poll"), P("c03_stop_seen_later", "stop observed at the second poll"), P("c03_stop_timeout", "never stops: timeout, soft error, SIGCONT still sent"),
+    P("c03_stop_timeout_zombie_leader", "main thread exited (state Z forever)"), P("c03_stop_traced_is_not_stopped", "state t is not a group stop"), P("c03_stop_stat_unreadable", "stat unreadable after SIGSTOP"),
+    P("c03_stop_stat_unreadable_later", "stat unreadable at the second poll"), P("c03_stop_refused", "SIGSTOP refused (EPERM)"),
     H("c19_dump::g_dump_fresh", desc="dump(): threads resumed exactly once, before the soft-error stream; nothing stopped at return; SIGCONT sent", loops={"MINIDUMP_EXCEPTION": 20, "alloc_from_array": 8}, timeout=2400, est_gb=8, mem_gb=24),
     H("c19_dump::g_dump_handles_fail", desc="dump() with a failing best-effort step: same", loops={"MINIDUMP_EXCEPTION": 20, "alloc_from_array": 8}, timeout=2400, est_gb=8, mem_gb=24, tier="thorough"),
     S("c03_plain_drop", "1 thread, clean attach, drop (Drop path: ~12 min)", "thorough"), S("c03_plain_resume", "1 thread, clean attach, resume, drop"),
@@ -20,5 +25,6 @@ HARNESSES = [
     S("c03_signal_then_wait_fails", "signal, then waitpid fails", "thorough"), S("c03_seccomp_thread", "null stack pointer: skipped and detached"),
     S("c03_signal_seccomp_thread", "signal, then skipped", "thorough"), S("c03_regs_fail", "getregs fails: skipped and detached"),
     S("c03_two_threads_mixed", "2 threads: one with a signal, one dies", "thorough"), S("c03_two_threads_skip_first", "2 threads: first skipped", "thorough"),
+    S("c03_two_threads_attach_fails_first", "2 threads: attach to the first fails, the second is still suspended, listed and resumed"),
     S("c03_three_threads", "3 threads", "thorough"),
 ]
